@@ -39,7 +39,19 @@ DUNDERS = ["__foo__", "__x", "__dict__x"]
 
 
 class WalkWorld(_unbuf.StaleWorld):
-    def walk(self, node, fam, path=()):
+    def walk(self, node, fam, path=(), root=None, attrs0=None):
+        if root is None:
+            root = node
+            self._root_attrs = attrs0 if attrs0 is not None else set(vars(node))
+        else:
+            # a nested node belongs to THIS tree: its root is the object it is reachable from
+            if getattr(node, "_root", None) is not root:
+                raise Violation("foreign_node_in_tree", f"node at {list(path)} of {type(root).__name__} has _root {type(getattr(node, '_root', None)).__name__} "
+                                f"@{id(getattr(node, '_root', None)):#x}, not the object it is reachable from: mutations through it would go to another collection")
+            missing = [n for n in self._root_attrs if n not in vars(node) and n not in ("_root_hid",)]
+            if missing:
+                raise Violation("internal_attribute_missing", f"nested {type(node).__name__} at {list(path)} lacks the instance attributes {sorted(missing)} "
+                                f"that its root has: attribute access to these protected names would fall through to the data")
         d = node._data
         items = d.items() if isinstance(d, dict) else enumerate(d)
         for k, v in items:
@@ -50,21 +62,22 @@ class WalkWorld(_unbuf.StaleWorld):
                 want = fam["d"] if isinstance(v._data, dict) else fam["l"]
                 if type(v) is not want:
                     raise Violation("wrong_family", f"node at {list(path) + [k]} is {type(v).__name__}, expected {want.__name__} under {fam['d'].__name__}/{fam['l'].__name__} root")
-                self.walk(v, fam, path + (k,))
+                self.walk(v, fam, path + (k,), root)
 
     def post_op(self, r, ob, h, name, mutated, buffered, pre, changed, lres):
         super().post_op(r, ob, h, name, mutated, buffered, pre, changed, lres)
         fam = self.ns.families[r.family]
         for o in self.objs:
             if o.alive:
-                self.walk(o.o, fam)
+                self.walk(o.o, fam, attrs0=getattr(o, "attrs0", None))
 
 
 def make_cfg(rs, tier):
     cfg = _unbuf.base_cfg(rs, ID)
     cfg["nobj"] = rs.choice([1, 1, 2])
     cfg["p_outside"] = rs.choice([0.0, 0.2, 0.35])
-    cfg["oracles"] = ["backend", "result"]
+    cfg["oracles"] = ["backend", "result", "children"]
+    cfg["p_handle_store"] = rs.choice([0.0, 0.08, 0.15])   # synced nodes (also of another root) stored into the tree
     return cfg
 
 
@@ -98,7 +111,16 @@ def twin_run(seed, i, cfg, rg, w, steps):
     for _ in range(cfg["length"]):
         ha, hi = G.pick(rg, pairs)
         roll = rg.random()
-        if roll < 0.55:
+        if roll < 0.12:
+            # equal-but-differently-typed values through plain assignment (setitem is not a merge path): 1 over True, 2.0 over 2 ...
+            key = "typed%d" % rg.randrange(3)
+            a, b = G.pick(rg, [(True, 1), (1, True), (0, False), (2, 2.0), (3.0, 3), (1.0, True), (False, 0.0)])
+            do({"t": "twin", "ha": ha, "hi": hi, "name": "setitem", "args": [key, a]})
+            do({"t": "twin", "ha": ha, "hi": hi, "name": "setitem", "args": [key, b]})
+            do({"t": "twin", "ha": ha, "hi": hi, "name": "getitem", "args": [key]})
+            do({"t": "twin", "ha": ha, "hi": hi, "name": "delitem", "args": [key]})
+            w.probe("typed_pair")
+        elif roll < 0.55:
             key = G.pick(rg, ORDINARY)
             name = G.pick(rg, ["setitem", "getitem", "delitem", "setitem"])
             args = [key] + ([gen_value(rg, w.fresh, 1)] if name == "setitem" else [])
